@@ -19,7 +19,7 @@ enum OpKind { O_APPEND = 1, O_PREPEND = 2, O_INSERT = 3, O_REMOVE = 4, O_OWNS = 
 // Op fields: d = key index. adds: a = callback id (= slot), b = before slot, c = listener kind. remove/owns: b = slot.
 //            dispatch: a = value seed, c = form (argument value categories / event-included form)
 enum { U_VARIANT = 0 };
-enum { V_COUNT = 12 };
+enum { V_COUNT = 13 };
 
 typedef Tracked<seq::T_PAY, false> Payload;
 typedef std::vector<long> Sig;
@@ -397,6 +397,37 @@ struct Cfg11
 	static int forms() { return 2; }
 };
 
+
+// cfg12: a NON-OWNING key: it refers to the std::string it was made from (the std::string_view idea, spelled out for C++11). In the
+// include-event form the key refers to dispatch()'s own by-value argument; the lookup must happen before that argument is moved on.
+struct KeyView
+{
+	const std::string * p;
+	KeyView(const std::string & s) : p(&s) {}
+	bool operator < (const KeyView & o) const { faultPoint(F_CMP); return *p < *o.p; }
+};
+struct Cfg12
+{
+	typedef KeyView Key;
+	typedef void Proto(std::string, Payload);
+	struct Pol { typedef eventpp::ArgumentPassingIncludeEvent ArgumentPassingMode; };
+	typedef eventpp::EventDispatcher<Key, Proto, Pol> D;
+	static const std::string & stable(int i) { static const std::string t[4] = { Cfg2::key(0), Cfg2::key(1), Cfg2::key(2), Cfg2::key(3) }; return t[i & 3]; }
+	static Key key(int i) { return KeyView(stable(i)); }   // registered keys refer to strings that live for the whole program
+	typedef Cfg2::K0 K0; typedef Cfg2::K1 K1; typedef Cfg2::K2 K2;
+	static std::function<Proto> make(int kind, int cb) { return Cfg2::make(kind, cb); }
+	static void dispatch(D & d, int ki, int v, int form)
+	{
+		std::string s = stable(ki);
+		Payload p(2000, v * 5 + 2);
+		if(form == 0) d.dispatch(s, p);
+		else if(form == 1) d.dispatch(std::string(stable(ki)), Payload(2000, v * 5 + 2));
+		else d.dispatch(std::move(s), std::move(p));
+	}
+	static Sig expected(int ki, int v, int) { Sig g; g.push_back(H(stable(ki))); g.push_back(v * 5 + 2); return g; }
+	static int forms() { return 3; }
+};
+
 // ---------------------------------------------------------------- interpreter
 struct MItem { int cb; };
 
@@ -674,6 +705,8 @@ void runVariant9(const Plan & p, RunOut & o) { runCfg<Cfg9>(p, o); }
 void runVariant10(const Plan & p, RunOut & o) { runCfg<Cfg10>(p, o); }
 #elif SEQ_VARIANT == 11
 void runVariant11(const Plan & p, RunOut & o) { runCfg<Cfg11>(p, o); }
+#elif SEQ_VARIANT == 12
+void runVariant12(const Plan & p, RunOut & o) { runCfg<Cfg12>(p, o); }
 #endif
 
 } // namespace sd
@@ -685,7 +718,7 @@ Sink * g_sink = nullptr;
 Counters counters;
 void runVariant0(const Plan &, RunOut &); void runVariant1(const Plan &, RunOut &); void runVariant2(const Plan &, RunOut &);
 void runVariant3(const Plan &, RunOut &); void runVariant4(const Plan &, RunOut &); void runVariant5(const Plan &, RunOut &);
-void runVariant6(const Plan &, RunOut &); void runVariant7(const Plan &, RunOut &); void runVariant8(const Plan &, RunOut &); void runVariant9(const Plan &, RunOut &); void runVariant10(const Plan &, RunOut &); void runVariant11(const Plan &, RunOut &);
+void runVariant6(const Plan &, RunOut &); void runVariant7(const Plan &, RunOut &); void runVariant8(const Plan &, RunOut &); void runVariant9(const Plan &, RunOut &); void runVariant10(const Plan &, RunOut &); void runVariant11(const Plan &, RunOut &); void runVariant12(const Plan &, RunOut &);
 }
 
 namespace engine {
@@ -732,7 +765,7 @@ void execute(const Plan & plan, RunOut & out)
 	switch(v) {
 	case 0: sd::runVariant0(plan, out); break; case 1: sd::runVariant1(plan, out); break; case 2: sd::runVariant2(plan, out); break;
 	case 3: sd::runVariant3(plan, out); break; case 4: sd::runVariant4(plan, out); break; case 5: sd::runVariant5(plan, out); break;
-	case 7: sd::runVariant7(plan, out); break; case 8: sd::runVariant8(plan, out); break; case 9: sd::runVariant9(plan, out); break; case 10: sd::runVariant10(plan, out); break; case 11: sd::runVariant11(plan, out); break;
+	case 7: sd::runVariant7(plan, out); break; case 8: sd::runVariant8(plan, out); break; case 9: sd::runVariant9(plan, out); break; case 10: sd::runVariant10(plan, out); break; case 11: sd::runVariant11(plan, out); break; case 12: sd::runVariant12(plan, out); break;
 	default: sd::runVariant6(plan, out); break;
 	}
 	++sd::counters.plans;
@@ -749,7 +782,8 @@ std::string describe(const Plan & plan)
 		"int key/ExcludeEvent/non-identity getEvent policy (masks bits)", "string key/ExcludeEvent/non-identity getEvent policy (strips suffix)",
 		"int key/ExcludeEvent/getEvent policy reading a trailing by-value std::string argument",
 		"EventQueue, string key BY VALUE/void(string,Payload)/IncludeEvent: enqueue + process",
-		"string key/getEvent policy returning a reference to its second argument" };
+		"string key/getEvent policy returning a reference to its second argument",
+		"non-owning key referring to the string it was made from/void(string,Payload)/IncludeEvent" };
 	static const char * names[] = { "?", "append", "prepend", "insert", "remove", "ownsHandle", "hasAny", "forEach", "dispatch" };
 	std::ostringstream o;
 	const int v = plan.user(sd::U_VARIANT);
